@@ -563,6 +563,21 @@ def m_rx_poll_next(e, st, fr, t, args):
     return PENDING
 
 
+def m_rx_close(e, st, fr, t, args):
+    """Receiver::close / UnboundedReceiver::close: no further message is accepted, every parked sender is woken, what is
+    queued can still be received"""
+    rref = peel(e, st, args[0])
+    r = _load(e, st, rref)
+    if not (is_h(r, 'mpsc::Receiver') or is_h(r, 'mpsc::UnboundedReceiver')):
+        return NotImplemented
+    c = mget(st, r.extra['oid'])
+    for sid in c['parked']:
+        mset(st, sid, parked=False)
+    mset(st, r.extra['oid'], open=False, parked=())
+    st.event('chan_closed_by_receiver', r.extra['oid'], len(c['queue']))
+    return UNIT
+
+
 # ---- stream adapters over the receiver: rx.ready_chunks(k).flat_map(stream::iter) (prefetching mailboxes)
 def m_ready_chunks(e, st, fr, t, args):
     cap = e.as_int_expr(args[1])
@@ -686,15 +701,43 @@ def m_shared_peek(e, st, fr, t, args):
     if not is_h(s, 'Shared'):
         return NotImplemented
     c = mget(st, s.extra['oid'])
+    if s.extra.get('consumed'):
+        # this instance has already yielded its output (Shared::inner is None): peek sees nothing
+        st.event('shared_peek', s.extra['oid'], 'consumed')
+        return NONE
     st.event('shared_peek', s.extra['oid'], 'complete' if c['output'] is not None else 'incomplete')
     if c['output'] is not None:
         return some(VRef(('obj', s.extra['oid']), (), False))
     return NONE
 
 
+def m_shared_is_terminated(e, st, fr, t, args):
+    s = deref_arg(e, st, args[0])
+    if not is_h(s, 'Shared'):
+        return NotImplemented
+    return VScalar(bool(s.extra.get('consumed')))
+
+
+def _shared_consume(e, st, ref, fut):
+    """a Shared instance that returned Ready has given up its inner Arc: it (and every clone made of it from now on)
+    panics when polled again"""
+    if ref is not None:
+        ex = dict(fut.extra)
+        ex['consumed'] = True
+        try:
+            _store(e, st, ref, VAgg(name='Shared', extra=ex))
+        except Unsupported:
+            pass
+
+
 def poll_shared(e, st, ref, fut):
     c = mget(st, fut.extra['oid'])
+    if fut.extra.get('consumed'):
+        st.event('panic', 'explicit', 'Shared future polled again after completion')
+        st.meta['panic_now'] = True
+        return [(st, PENDING)]
     if c['output'] is not None:
+        _shared_consume(e, st, ref, fut)
         return [(st, ready(c['output']))]
     inner = c['inner']
     # poll the inner future (a oneshot receiver)
@@ -706,6 +749,7 @@ def poll_shared(e, st, ref, fut):
         if pv.vname == 'Ready':
             mset(s2, fut.extra['oid'], output=pv.fields[('v', 'Ready', 0)])
             st.event('shared_complete', fut.extra['oid'])
+            _shared_consume(e, s2, ref, fut)
         else:
             block_on(s2, inner.extra['oid'])
         res.append((s2, pv))
@@ -1399,6 +1443,7 @@ def install(eng: Engine, resolver):
     # the same through a generic parameter (`fn payload_stream<S: Stream>(rx: S)`): decided by the value that is polled
     add(r'^<.* as (futures::)?SinkExt<.*>>::send$', m_sink_send)
     add(r'^<.* as (futures::)?Stream>::poll_next$', m_rx_poll_next)
+    add(r'^(futures::)?(futures_channel::)?(mpsc::)?(Unbounded)?Receiver::<.*>::close$|^(futures::)?(futures_channel::)?(mpsc::)?(Unbounded)?Receiver::close$', m_rx_close)
     add(r'^<.* as (futures::)?Stream>::poll_next$', m_flat_map_poll_next)
     add(r'^<(futures::futures_channel::mpsc::)?(Unbounded)?Receiver<.*> as (futures::)?StreamExt>::ready_chunks$', m_ready_chunks)
     add(r'^<(futures::stream::)?ReadyChunks<.*> as (futures::)?StreamExt>::flat_map::<', m_flat_map_iter)
@@ -1409,6 +1454,7 @@ def install(eng: Engine, resolver):
     add(r' as FutureExt>::now_or_never$', m_now_or_never)
     add(r'^<Shared<.*> as Clone>::clone$', m_shared_clone)
     add(r'^Shared::<.*>::peek$', m_shared_peek)
+    add(r'^<Shared<.*> as (futures::future::)?FusedFuture>::is_terminated$', m_shared_is_terminated)
     add(r'^async_lock::(Mutex|RwLock)::<.*>::new$', m_mutex_new)
     add(r'^async_lock::Mutex::<.*>::lock$', m_lock_acquire('write'))
     add(r'^async_lock::RwLock::<.*>::write$', m_lock_acquire('write'))
